@@ -66,6 +66,7 @@ type corr struct {
 	Label string
 	Apply func(m *model)
 	Word  bool // generic 32-byte-word bit flip of the packed input
+	Num   bool // numeric-word edit (sign extension, truncation, high bits); not part of the pair product
 }
 
 var secpN, _ = new(big.Int).SetString("fffffffffffffffffffffffffffffffebaaedce6af48a03bbfd25e8cd0364141", 16)
@@ -178,6 +179,42 @@ func (e *env) menu(kind string) []corr {
 		add(name+"+1", func(m *model) { p := get(m); *p = addInt(*p, 1) })
 		add(name+"-1", func(m *model) { p := get(m); *p = addInt(*p, -1) })
 	}
+	// edits of one numeric word as a whole (the reference encoding is unsigned, 256 bit)
+	numLeaves := func(name string, get func(m *model) **big.Int) {
+		num := func(l string, f func(v *big.Int) *big.Int) {
+			out = append(out, corr{Label: name + ":" + l, Num: true, Apply: func(m *model) { p := get(m); *p = f(*p) }})
+		}
+		two := func(n uint) *big.Int { return new(big.Int).Lsh(big.NewInt(1), n) }
+		num("sign-extended-from-64-bits", func(v *big.Int) *big.Int {
+			if v.Bit(63) == 0 || v.BitLen() > 64 {
+				return v
+			}
+			return new(big.Int).Add(v, new(big.Int).Sub(two(256), two(64)))
+		})
+		num("truncated-to-63-bits", func(v *big.Int) *big.Int { return new(big.Int).And(v, new(big.Int).Sub(two(63), big.NewInt(1))) })
+		num("bit-63-flipped", func(v *big.Int) *big.Int { return new(big.Int).Xor(v, two(63)) })
+		num("bit-64-flipped", func(v *big.Int) *big.Int { return new(big.Int).Xor(v, two(64)) })
+		num("bit-255-flipped", func(v *big.Int) *big.Int { return new(big.Int).Xor(v, two(255)) })
+	}
+	numVS := func(pfx string, get func(m *model) *valsetT, n int) {
+		numLeaves(pfx+".valset_id", func(m *model) **big.Int { return &get(m).ValsetId })
+		for i := 0; i < n; i++ {
+			i := i
+			numLeaves(fmt.Sprintf("%s.power[%d]", pfx, i), func(m *model) **big.Int { return &get(m).Powers[i] })
+		}
+	}
+	numFees := func() {
+		out = append(out, corr{Label: "fees:all-three-sign-extended-from-64-bits", Num: true, Apply: func(m *model) {
+			for _, p := range []**big.Int{&m.Fee.RelayerFee, &m.Fee.CommunityFee, &m.Fee.SecurityFee} {
+				if v := *p; v.Bit(63) == 1 && v.BitLen() <= 64 {
+					*p = new(big.Int).Add(v, new(big.Int).Sub(new(big.Int).Lsh(big.NewInt(1), 256), new(big.Int).Lsh(big.NewInt(1), 64)))
+				}
+			}
+		}})
+		numLeaves("fee.relayer", func(m *model) **big.Int { return &m.Fee.RelayerFee })
+		numLeaves("fee.community", func(m *model) **big.Int { return &m.Fee.CommunityFee })
+		numLeaves("fee.security", func(m *model) **big.Int { return &m.Fee.SecurityFee })
+	}
 
 	if kind != kUpload {
 		own := e.abi.Methods[methodOf[kind]].ID
@@ -223,6 +260,7 @@ func (e *env) menu(kind string) []corr {
 			m.Cons.Signatures = append(m.Cons.Signatures, sigT{bi(s.V), bi(s.R), bi(s.S)})
 		})
 		relayerLeaves()
+		numVS("consensus.valset", func(m *model) *valsetT { return &m.Cons.Valset }, n)
 	}
 	switch kind {
 	case kSLC:
@@ -236,10 +274,15 @@ func (e *env) menu(kind string) []corr {
 		add("message_id:=twin", func(m *model) { m.MsgID = new(big.Int).SetUint64(t.Twin) })
 		intLeaves("deadline", func(m *model) **big.Int { return &m.Deadline })
 		add("message_id<->deadline", func(m *model) { m.MsgID, m.Deadline = m.Deadline, m.MsgID })
+		numFees()
+		numLeaves("message_id", func(m *model) **big.Int { return &m.MsgID })
+		numLeaves("deadline", func(m *model) **big.Int { return &m.Deadline })
 	case kValset:
 		vsLeaves("new_valset", func(m *model) *valsetT { return &m.NewVS }, len(rm.NewVS.Validators), false)
 		add("new_valset:=consensus.valset", func(m *model) { m.NewVS = m.Cons.Valset.clone() })
 		intLeaves("gas_estimate", func(m *model) **big.Int { return &m.Gas })
+		numLeaves("gas_estimate", func(m *model) **big.Int { return &m.Gas })
+		numVS("new_valset", func(m *model) *valsetT { return &m.NewVS }, len(rm.NewVS.Validators))
 	case kUSC:
 		add("deployer:flip-low", func(m *model) { m.Deployer = flipAddr(m.Deployer, 19) })
 		add("deployer:flip-high", func(m *model) { m.Deployer = flipAddr(m.Deployer, 0) })
@@ -248,6 +291,9 @@ func (e *env) menu(kind string) []corr {
 		intLeaves("message_id", func(m *model) **big.Int { return &m.MsgID })
 		intLeaves("deadline", func(m *model) **big.Int { return &m.Deadline })
 		add("message_id<->deadline", func(m *model) { m.MsgID, m.Deadline = m.Deadline, m.MsgID })
+		numFees()
+		numLeaves("message_id", func(m *model) **big.Int { return &m.MsgID })
+		numLeaves("deadline", func(m *model) **big.Int { return &m.Deadline })
 	case kHandover:
 		for i := range rm.Fwd {
 			i := i
@@ -271,6 +317,8 @@ func (e *env) menu(kind string) []corr {
 		intLeaves("deadline", func(m *model) **big.Int { return &m.Deadline })
 		intLeaves("gas_estimate", func(m *model) **big.Int { return &m.Gas })
 		add("deadline<->gas_estimate", func(m *model) { m.Gas, m.Deadline = m.Deadline, m.Gas })
+		numLeaves("deadline", func(m *model) **big.Int { return &m.Deadline })
+		numLeaves("gas_estimate", func(m *model) **big.Int { return &m.Gas })
 	case kUpload:
 		bytesLeaves("bytecode", func(m *model) *[]byte { return &m.Bytecode })
 		add("ctor.compass_id:flip-first", func(m *model) { m.Unique[0] ^= 0x80 })
@@ -278,6 +326,7 @@ func (e *env) menu(kind string) []corr {
 		add("ctor.event_id+1", func(m *model) { m.EventID = addInt(m.EventID, 1) })
 		add("ctor.gravity_nonce+1", func(m *model) { m.GravNo = addInt(m.GravNo, 1) })
 		vsLeaves("ctor.valset", func(m *model) *valsetT { return &m.NewVS }, len(rm.NewVS.Validators), false)
+		numVS("ctor.valset", func(m *model) *valsetT { return &m.NewVS }, len(rm.NewVS.Validators))
 		add("ctor.fee_manager:flip-low", func(m *model) { m.FeeMgr = flipAddr(m.FeeMgr, 19) })
 		add("ctor.fee_manager:flip-high", func(m *model) { m.FeeMgr = flipAddr(m.FeeMgr, 0) })
 		add("ctor.absent", func(m *model) {
@@ -349,7 +398,7 @@ type caseT struct {
 	Sigs int    // bit mask over the collected signatures (collection order); -1 = all
 	Ev   string // receipt variant
 	Tx   string // transaction envelope variant
-	Ord  int    // signature collection order (index into orders; 0 = default)
+	Ord  int    // scenario variant (index into variants; 0 = default): collection order / extreme values
 }
 
 // tgt is the message the case offers proofs for (the kind's target in the base
@@ -375,7 +424,7 @@ func (c caseT) key(e *env) string {
 	}
 	k := fmt.Sprintf("%s|%s|sigs=%d|%s|%s", c.Kind, strings.Join(ls, " & "), c.Sigs, c.Ev, c.Tx)
 	if c.Ord > 0 {
-		k += "|collected=" + orderName(c.Ord)
+		k += "|" + variants[c.Ord].Name
 	}
 	return k
 }
@@ -546,8 +595,8 @@ func (e *env) proof(c caseT, data []byte) (*evmtypes.TxExecutedProof, *ethtypes.
 		o.To = &a
 	case "chain-id=other":
 		o.ChainID = 5
-	case "legacy-envelope":
-		o.Legacy = true
+	case "env=legacy", "env=access-list", "env=dynamic-fee", "env=blob", "env=blob-with-sidecar":
+		o.Env = strings.TrimPrefix(c.Tx, "env=")
 	case "sender=not-the-relayer":
 		for _, v := range e.s.w.Vals {
 			if v != rel {
@@ -689,7 +738,7 @@ func (e *env) runCase(c caseT) {
 		}
 		return
 	}
-	info := c.Tx != "" && c.Tx != "nonce+1" && c.Tx != "legacy-envelope"
+	info := c.Tx == "to=other-contract" || c.Tx == "chain-id=other" || c.Tx == "sender=not-the-relayer"
 	expect := isRef && (c.Ev == "status=1" || (c.Kind != kUSC && c.Ev == "status=1,no-logs"))
 	p, tx := e.proof(c, data)
 	ctx := world.Fork(e.s.bases[t.Base])
@@ -887,13 +936,15 @@ func run(r *report.Run, shard, nshards int, replayFile string) {
 			os.Exit(2)
 		}
 	}
-	r.Rule = "per action type (SubmitLogicCall, UpdateValset, UploadSmartContract, UploadUserSmartContract, CompassHandover; each queued through the real path with elected gas estimate, fees, three signatures, public access data): the reference transaction; every single corruption of the menu (named leaves of the argument tree: selector, consensus valset id / validators / powers / order, every signature component and signature order, relayer, fees, fee payer, ids, deadlines, gas estimate, addresses, payload/bytecode flip-truncate-extend, forward calls, constructor arguments, trailing bytes; plus highest and lowest bit of every 32-byte word of the packed input) with receipt status 1 and 0; all unordered pairs of menu entries (thorough); every subset of the collected signatures (prefixes and non-prefixes of the COLLECTION order) for each of the 6 orders in which three validators can sign (default = valset order, reversed, rotated, ...), singles on every proper prefix of the default, reversed and rotated collection (consensus leaves in quick, all named leaves in thorough); receipt variants {1, 0, absent, undecodable, success without the deployment event}; re-use sequences (same tx for the content-identical twin in the same / next block, twin first, evidence for an attested message). Each case = 3 real MsgAddEvidence txs + the application's end-block on a fork; distinct = distinct cases"
+	r.Rule = "per action type (SubmitLogicCall, UpdateValset, UploadSmartContract, UploadUserSmartContract, CompassHandover; each queued through the real path with elected gas estimate, fees, three signatures, public access data): the reference transaction; every single corruption of the menu (named leaves of the argument tree: selector, consensus valset id / validators / powers / order, every signature component and signature order, relayer, fees, fee payer, ids, deadlines, gas estimate, addresses, payload/bytecode flip-truncate-extend, forward calls, constructor arguments, trailing bytes; plus highest and lowest bit of every 32-byte word of the packed input) with receipt status 1 and 0; all unordered pairs of menu entries (thorough); every subset of the collected signatures (prefixes and non-prefixes of the COLLECTION order) for each of the 6 orders in which three validators can sign (default = valset order, reversed, rotated, ...), singles on every proper prefix of the default, reversed and rotated collection (consensus leaves in quick, all named leaves in thorough); receipt variants {1, 0, absent, undecodable, success without the deployment event}; transaction envelope alphabet {legacy, access-list, dynamic-fee, blob canonical, blob network form with sidecar} x receipt {1,0} per type; extreme numeric values reached through the real paths (all validators estimate 2^63-1 / 2^63 / 2^64-1 gas, governance fee rates 1.0/1.0, 1.9/0.5, 0.5/0.5 => gas_estimate word resp. fee words at and above 2^63) with the reference transaction and per numeric word +-1, sign-extended from 64 bits, truncated to 63 bits, bits 63 / 64 / 255 flipped (all named leaves in thorough); re-use sequences (same tx for the content-identical twin in the same / next block, twin first, evidence for an attested message) and the replay product: message attested with the transaction in envelope e1, the same reference input offered for the twin in envelope e2, all 25 pairs (9 for the contract creation), must be refused whenever the transaction hash is the same (e1 == e2, or the two encodings of the blob transaction). Each case = 3 real MsgAddEvidence txs + the application's end-block on a fork; distinct = distinct cases"
 	r.Assumptions = []string{
 		"accepted = the message left the queue and the end-block's attestation loop logged no error; for SubmitLogicCall this is the only success observable (the attester changes no store besides queue, processed-tx set and relay metrics), for the other types the store-level success effect (snapshot live on chain / deployment advanced / user deployment active / contract activated) is checked as well",
 		"weaker reading: on a refused proof the message may be removed (not verified, failed receipt) or stay queued (attester error); the processed-transaction mark and the relayer's metrix history record are counted as bookkeeping, not as success effects (the record carries success=true for every TxExecutedProof, measured in coverage.metrix_record_on_rejected)",
 		"a reference transaction with a successful receipt that lacks the ContractDeployed event is expected to be refused for UploadUserSmartContract (no address to record)",
-		"transaction envelope variants the statement does not mention (other `to` address, other chain id, sender other than the relayer) are measured (coverage.envelope) and not judged; legacy envelope and another nonce must be accepted",
+		"transaction envelope variants the statement does not mention (other `to` address, other chain id, sender other than the relayer) are measured (coverage.envelope) and not judged; every envelope of the alphabet and another nonce must be accepted",
 		"'prefix of the collected signatures' is read in collection order (the order of the messages' SignData, i.e. of the MsgAddMessagesSignatures transactions), not in valset order; the signatures are collected in all 6 orders of the three validators",
+		"extreme values: only the gas estimate (elected from validators' MsgAddMessageGasEstimates) and the fees derived from it are settable through real transactions; message ids, deadlines, valset ids and powers cannot be driven to 2^63 by any real path and only get the numeric-word corruptions; the harness' encoder packs every number as unsigned 256-bit",
+		"replay product: a transaction with another hash (another envelope type) offered for the twin after the first attestation is not required to be accepted (the twin's own preconditions may be gone); only acceptance of an already used hash is a violation (replay:accepted-twice:<e1>+<e2>)",
 		"validator set of the consensus argument = snapshot named in the message's public access data (valset live on the target chain), powers floor(2^32*share/total); three validators with shares 3:2:1",
 		"'used transaction' = a transaction hash that was the winning evidence of an earlier end-block whose attestation result was committed",
 	}
@@ -1000,14 +1051,24 @@ func (e *env) prepare(k string) {
 	if k == kUpload {
 		return
 	}
-	for oi := 1; oi < len(orders); oi++ {
+	for oi := 1; oi < len(variants); oi++ {
 		at := e.s.alt[oi][k]
 		if at == nil || at.ID != t.ID || len(at.Sigs) != len(t.Sigs) {
-			panic(fmt.Sprintf("%s: no target for collection order %s", k, orderName(oi)))
+			panic(fmt.Sprintf("%s: no target for variant %s", k, variants[oi].Name))
 		}
 		for i, sd := range at.Sigs {
-			if want := e.s.w.Vals[orders[oi][i]]; !strings.EqualFold(sd.ExternalAccountAddress, want.EthAddr()) {
-				panic(fmt.Sprintf("%s: collection order %s not realised", k, orderName(oi)))
+			if want := e.s.w.Vals[variants[oi].Order[i]]; !strings.EqualFold(sd.ExternalAccountAddress, want.EthAddr()) {
+				panic(fmt.Sprintf("%s: collection order of variant %s not realised", k, variants[oi].Name))
+			}
+		}
+		if x := variants[oi].Est; x != 0 {
+			// the extreme value did reach the message through the real path
+			got := at.Gas
+			if f := feesOf(at.Msg); f != nil {
+				got = f.RelayerFee
+			}
+			if got != x {
+				panic(fmt.Sprintf("%s: variant %s: elected estimate / relayer fee is %d", k, variants[oi].Name, got))
 			}
 		}
 		if e.refsOrd[oi] == nil {
@@ -1026,6 +1087,18 @@ func (e *env) prepare(k string) {
 	}
 }
 
+func feesOf(m *evmtypes.Message) *evmtypes.Fees {
+	if a := m.GetSubmitLogicCall(); a != nil {
+		return a.Fees
+	}
+	if a := m.GetUploadUserSmartContract(); a != nil {
+		return a.Fees
+	}
+	return nil
+}
+
+var envelopes = []string{"legacy", "access-list", "dynamic-fee", "blob", "blob-with-sidecar"}
+
 func (e *env) enumerate() []caseT {
 	var out []caseT
 	thorough := e.r.Thorough()
@@ -1039,8 +1112,17 @@ func (e *env) enumerate() []caseT {
 		for _, ev := range evs {
 			out = append(out, caseT{Kind: k, Sigs: -1, Ev: ev})
 		}
-		for _, tv := range []string{"to=other-contract", "chain-id=other", "legacy-envelope", "sender=not-the-relayer", "nonce+1"} {
+		for _, tv := range []string{"to=other-contract", "chain-id=other", "sender=not-the-relayer", "nonce+1"} {
 			out = append(out, caseT{Kind: k, Sigs: -1, Ev: "status=1", Tx: tv})
+		}
+		// transaction envelope alphabet (a contract creation cannot be a blob transaction)
+		for _, env := range envelopes {
+			if k == kUpload && strings.HasPrefix(env, "blob") {
+				continue
+			}
+			for _, ev := range []string{"status=1", "status=0"} {
+				out = append(out, caseT{Kind: k, Sigs: -1, Ev: ev, Tx: "env=" + env})
+			}
 		}
 		// signature subsets
 		if k != kUpload {
@@ -1072,7 +1154,7 @@ func (e *env) enumerate() []caseT {
 		if k != kUpload {
 			// other signature collection orders: every subset of the collected
 			// signatures; the oracle is the same (non-empty prefix of the collection)
-			for oi := 1; oi < len(orders); oi++ {
+			for oi := 1; oi < numOrders; oi++ {
 				for mask := 0; mask < 1<<len(t.Sigs); mask++ {
 					for _, ev := range []string{"status=1", "status=0"} {
 						out = append(out, caseT{Kind: k, Sigs: mask, Ev: ev, Ord: oi})
@@ -1091,9 +1173,33 @@ func (e *env) enumerate() []caseT {
 				}
 			}
 		}
+		if k != kUpload {
+			// extreme numeric values (elected estimate / fees of 2^63-1, 2^63, 2^64-1):
+			// the reference transaction and the single corruptions
+			for oi := numOrders; oi < len(variants); oi++ {
+				for _, ev := range []string{"status=1", "status=0"} {
+					out = append(out, caseT{Kind: k, Sigs: -1, Ev: ev, Ord: oi})
+				}
+				for i := 0; i < n; i++ {
+					c := e.menus[k][i]
+					l := c.Label
+					numeric := c.Num || strings.HasPrefix(l, "fee") || strings.HasPrefix(l, "gas_estimate") || strings.HasPrefix(l, "message_id") || strings.HasPrefix(l, "deadline")
+					if c.Word && !thorough || !numeric && !thorough {
+						continue
+					}
+					out = append(out, caseT{Kind: k, Corr: []int{i}, Sigs: -1, Ev: "status=1", Ord: oi})
+				}
+			}
+		}
 		if thorough {
 			for i := 0; i < n; i++ {
+				if e.menus[k][i].Num {
+					continue
+				}
 				for j := i + 1; j < n; j++ {
+					if e.menus[k][j].Num {
+						continue
+					}
 					out = append(out, caseT{Kind: k, Corr: []int{i, j}, Sigs: -1, Ev: "status=1"})
 				}
 			}
